@@ -88,25 +88,6 @@ def nontrivial(cur, curo):
     return any(l.startswith("pa ") for l in cur)
 
 
-def _locked(fn):
-    """One C10 run at a time: the generated table lean/IstioModel/Generated/C10Chains.lean and work/C10 are
-    shared between concurrent invocations (also VERIF_REPO=<scratch> ones); serialise them with a file lock."""
-    import fcntl
-    import functools
-
-    @functools.wraps(fn)
-    def wrapper(ctx, *a):
-        os.makedirs(ctx.work, exist_ok=True)
-        with open(os.path.join(ctx.work, ".lock"), "w") as lk:
-            fcntl.flock(lk, fcntl.LOCK_EX)
-            try:
-                return fn(ctx, *a)
-            finally:
-                fcntl.flock(lk, fcntl.LOCK_UN)
-    return wrapper
-
-
-@_locked
 def run(ctx):
     ctx.rule = ("cases = 0-6 PeerAuthentication policies (mesh / namespace / workload-selector / port-level; modes UNSET, "
                 "DISABLE, PERMISSIVE, STRICT and nil; creation times from a 3-value pool, one case in four with a single "
@@ -182,7 +163,6 @@ def run(ctx):
                 report(ctx, stream, tmp, bad)
 
 
-@_locked
 def replay(ctx, path):
     import json
     obj = json.load(open(path))
@@ -191,7 +171,7 @@ def replay(ctx, path):
     stream = rep.get("stream") or (rep.get("extra") or {}).get("stream") or "compose"
     if not ops:
         ctx.log("replay file has no ops; re-running the full check")
-        return run.__wrapped__(ctx)
+        return run(ctx)
     if not (ctx.build_drv() and ctx.go_build()):
         return
     p = os.path.join(ctx.work, "replay.ops")
@@ -219,14 +199,18 @@ MANIFEST = {
                    "Sidecar-ingress chain configs, target ports, passthrough), and the ambient conversion (fetchPeerAuthentications, "
                    "convertedSelectorPeerAuthentications, convertPeerAuthentication, PeerAuthDerivedPolicies) are modelled exactly. "
                    "Proved for all policy lists, workloads and ports: compose_eq_spec (resolver = declarative effectiveMode, ties by the "
-                   "real comparator), namespace_mode_agrees, client_agrees(_scoped: on the per-proxy filtered view), order independence, "
+                   "real comparator), namespace_mode_agrees, client_agrees(_scoped: on the per-proxy filtered view), version_tracks_spec, order "
+                   "independence; the COMPOSED client decision (cluster TLS socket and endpoint label) is proved sound and exact unless the "
+                   "namespace-level mode is DISABLE - the full clause is false on the code (theorem client_agrees_full_witness, known finding "
+                   "F13 reproduced on real CDS/EDS/LDS); "
                    "inbound_enforces / inbound_listener_enforces (the filter chains Envoy selects for any destination port admit plaintext "
                    "iff not STRICT, terminate mutual TLS iff not DISABLE, all terminate mutual TLS under STRICT; one-way TLS only for user "
-                   "TLS on a Sidecar ingress listener under DISABLE), ambient_strict_exact (ztunnel rejects an unauthenticated peer iff the "
+                   "TLS on a Sidecar ingress listener under DISABLE; custom bind listeners, listener merge, HBONE terminate listener always mTLS), "
+                   "ambient_strict_exact (ztunnel rejects an unauthenticated peer iff the "
                    "effective mode is STRICT, for every krt enumeration order), no_dangling, ambient_never_rejects_authenticated. The "
                    "enforcement claims are about filter-chain matches, transport sockets and ztunnel policies as modelled from "
                    "documentation; listener filters (TLS/HTTP inspectors) and TLS context contents are not modelled. Tied to /repo on every "
-                   "run by three line-by-line differentials against the real functions (incl. the real LDS generator, selectAuthnPolicies, "
+                   "run by three line-by-line differentials against the real functions (incl. the real LDS/CDS/EDS generators, selectAuthnPolicies, "
                    "buildWorkloadPolicies and PolicyCollections) and one regenerated table."),
     "level_note": ("Trusted: Lean kernel + {propext, Classical.choice, Quot.sound}; the hand-written model (tied by differential testing: "
                    "~40500 cases quick, ~610000 thorough, plus a 16-row generated table proved equal by decide); four verif-tagged "
